@@ -264,6 +264,7 @@ def check(tree, rep, tier='quick', seed=0):
     # ---- D4 wiring: call sites pass (a line of the same form year, the filing-status input) to the same year's figure_tax
     an = get_analysis(tree)
     n_calls = 0
+    taxed = {}
     for d in an.defs.values():
         for p in d.paths:
             for (kind, data, node, rel) in p.events:
@@ -279,6 +280,19 @@ def check(tree, rep, tier='quick', seed=0):
                 ok = isinstance(amt, E) and amt.op == 'v' and isinstance(st, E) and st.op == 'i' and st.args[0] == '1040.filing_status'
                 rep.ob('D4', f'{d.key}/arguments', ok, f'{d.key} calls figure_tax({amt!r}, {st!r}); expected (a line value, the Form 1040 filing status input)', d.where,
                        sample={'line': d.key, 'amount': repr(amt), 'status': repr(st)})
+                if ok:
+                    taxed.setdefault((d.fr.name, d.name), {}).setdefault(repr(amt), []).append((d.year, d.where))
+    # ... and the same line of the same form taxes the same amount in every year that has it (the worksheet's "tax on line 5"
+    # is the tax on line 5 in 2021, 2022 and 2023: a year that taxes another line was edited alone)
+    for (fname, lname), per in sorted(taxed.items()):
+        years = sorted({y for v_ in per.values() for (y, _w) in v_})
+        if len(years) < 2:
+            continue
+        major = max(per.items(), key=lambda kv: (len({y for (y, _w) in kv[1]}), kv[0]))[0]
+        for amt_s, sites in sorted(per.items()):
+            for (y, where_) in sorted(set(sites)):
+                rep.ob('D4', f'{y}/{fname}.{lname}/taxes-the-amount-its-sibling-years-tax', amt_s == major or len(per) == 1,
+                       f'{y} {fname}.{lname} is the tax on {amt_s}; in the other years ({[yy for yy in years if yy != y]}) the same line is the tax on {major}', where_)
     rep.floor('years analysed (folded or reported as stateful)', n_status // 5 + n_unfoldable, 3)
     rep.floor('statuses x years folded', n_status, 15 - 5 * n_unfoldable)
     rep.floor('elementary pieces and break points compared', n_pieces, 16000 * (3 - n_unfoldable))
